@@ -1468,13 +1468,21 @@ def generate(family, n, seed):
     tries = 0
     while len(out) < n and tries < 20 * n:
         tries += 1
-        c = fn(rng)
+        try:
+            c = fn(rng)
+        except (R.Refuse, FR.Unsupported, OverflowError, RecursionError, ZeroDivisionError):
+            # the reference does not define this input: not generated (never a verdict)
+            generate.skipped[family] = generate.skipped.get(family, 0) + 1
+            continue
         if c is None:
             continue
         c.family = family
         c.id = "%s.%d" % (family, len(out))
         out.append(c)
     return out
+
+
+generate.skipped = {}
 
 
 def run_families(families, n, seed, asan=False):
